@@ -757,6 +757,15 @@ def issuer_key(ctx):
     run([p[0] for p in pair], pair, dict(same_point_different_curve=True))
 
 
+@bounded("C17", "issuer_key_verdict_independent_of_batch",
+         bound="as C16/issuer_key_verdict_equals_ec_verdict (CheckIssuerKey judges signatures individually: the entry of "
+               "a signature is the EC verdict of its own issuer key whatever else is in the batch, in both orders, "
+               "including a batch mate with the same (x, y) under another curve id)",
+         functions=["ecdsa_sig_checks.CheckIssuerKey.Check", "ecdsa_sig_checks._MapIssuerSigIndexes", "paranoid.CheckAllEC"])
+def issuer_key_c17(ctx):
+  issuer_key(ctx)
+
+
 @bounded("C16", "check_all_entry_points_faithful",
          bound="CheckAllEC on 5 keys of 5 different curves (one with private key 0xBEEF0000, one secp192r1, one "
                "off-curve, one binary-field id); CheckAllECDSASigs on 2+2 healthy signatures of a brainpoolP256r1 and a "
